@@ -219,14 +219,29 @@ def ask_driver(requests, jobs=None):
     return out
 
 
-def run_suite(binary, args, seed, timeout=3600, extra_env=None):
-    """Run a harness suite; returns dict(cases=[(req, impl)], stats={}, oracle=[(what, req)])."""
+def run_suite(binary, args, seed, timeout=None, extra_env=None):
+    """Run a harness suite; returns dict(cases=[(req, impl)], stats={}, oracle=[(what, req)]).
+    A suite that does not end within the watchdog time (an implementation that hangs or spins) is
+    killed and reported as an oracle failure on the last input it announced."""
     e = env_offline()
     e["VERIF_SEED"] = str(seed)
     if extra_env:
         e.update(extra_env)
-    p = subprocess.run([binary] + args, stdout=subprocess.PIPE, stderr=subprocess.PIPE, text=True,
-                       timeout=timeout, env=e)
+    if timeout is None:
+        timeout = 6 * 3600 if "thorough" in args else 1500
+    proc = subprocess.Popen([binary] + args, stdout=subprocess.PIPE, stderr=subprocess.PIPE, text=True, env=e)
+    hung = False
+    try:
+        out, err = proc.communicate(timeout=timeout)
+    except subprocess.TimeoutExpired:
+        hung = True
+        proc.kill()
+        out, err = proc.communicate()
+
+    class P:
+        pass
+    p = P()
+    p.stdout, p.stderr, p.returncode = out or "", err or "", proc.returncode
     cases, stats, oracle, notes = [], {}, [], []
     last_try = None
     for line in p.stdout.split("\n"):
@@ -244,6 +259,9 @@ def run_suite(binary, args, seed, timeout=3600, extra_env=None):
             oracle.append((f[1], f[2]))
         elif f[0] == "NOTE":
             notes.append("\t".join(f[1:]))
+    if hung:
+        oracle.append(("implementation-hung(suite killed after %d s)" % timeout, last_try or " ".join(args)))
+        return dict(cases=cases, stats=stats, oracle=oracle, notes=notes)
     if p.returncode != 0:
         if last_try is not None:
             # the process died while the implementation was working on an announced input
